@@ -484,11 +484,13 @@ def _run_case(cid: str, case: Dict[str, Any]) -> List[str]:
     lines = [f"CASE {cid} {pr.w.cd.ALL_MESSAGE_TYPES}", "U " + " ".join(map(str, U))]
     with warnings.catch_warnings():
         warnings.simplefilter("ignore")
-        for kind, args in case["ops"]:
+        for opno, (kind, args) in enumerate(case["ops"]):
             lines.append(f"OP {kind} " + " ".join(map(str, args)))
             mark = pr.mark()
+            # the API takes any iterable of ids: every second call gets a tuple instead of a list (same order, duplicates kept)
+            args = tuple(args) if opno % 2 else list(args)
             if kind in ("subCtx", "pauseCtx"):
-                cm = (c.subscription_context if kind == "subCtx" else c.paused_subscription_context)(list(args))
+                cm = (c.subscription_context if kind == "subCtx" else c.paused_subscription_context)(args)
                 try:
                     cm.__enter__()
                     err = None
@@ -506,13 +508,13 @@ def _run_case(cid: str, case: Dict[str, Any]) -> List[str]:
                 continue
             try:
                 if kind == "subscribe":
-                    c.subscribe(list(args))
+                    c.subscribe(args)
                 elif kind == "unsubscribe":
-                    c.unsubscribe(list(args))
+                    c.unsubscribe(args)
                 elif kind == "pause":
-                    c.pause_subscription(list(args))
+                    c.pause_subscription(args)
                 elif kind == "resume":
-                    c.resume_subscription(list(args))
+                    c.resume_subscription(args)
                 elif kind == "unsubAll":
                     c.unsubscribe_from_all()
                 elif kind == "pauseAll":
